@@ -45,6 +45,8 @@ float64 = double = DType("float64", "f", 7)
 int32 = DType("int32", "i", 3)
 int64 = long = DType("int64", "i", 4)
 uint8 = DType("uint8", "i", 1)
+int8 = DType("int8", "i", 1)
+int16 = DType("int16", "i", 2)
 bool_ = DType("bool", "b", 0)
 CONCRETE_DTYPES = [float16, float32, float64, int32, int64, uint8, bool_]
 # symbolic float dtypes: the operator's dtype and torch's current default dtype are two
@@ -201,7 +203,9 @@ class SymTensor:
                 inb = z3.And(*[z3.And(ix(i) >= 0, ix(i) < ix(s)) for i, s in zip(idx, shape)]) if idx else z3.BoolVal(True)
                 sym.ctx().add_axiom(z3.Implies(inb, constraint(idx, v)))
                 return v
-        return SymTensor(shape, dtype, Storage(elem, owner=f"{owner}:{name}" if owner == "caller" else owner, label=name))
+        st = Storage(elem, owner=f"{owner}:{name}" if owner == "caller" else owner, label=name)
+        st.fun = f  # the uninterpreted entry function (contracts may substitute it, e.g. to differentiate a spec)
+        return SymTensor(shape, dtype, st)
 
     @staticmethod
     def from_elem(shape, dtype, elem, owner="local", label=""):
